@@ -15,7 +15,7 @@
    [expected a r] = [sign (a_key a) r], or [zero_sig] when account a cannot sign.
    The specification side ([spec_signing_root], [get_domain], [compute_domain], [htr_*]) is Lib/Ssz.v
    and Section Spec of Model/C06_Signer.v, written from the consensus and builder specifications. *)
-From Verif Require Import Lib.Base Lib.Ssz Model.C06_Signer Proofs.C06 Proofs.C06_Spec Proofs.C06_Flaky.
+From Verif Require Import Lib.Base Lib.Ssz Model.C06_Signer Proofs.C06 Proofs.C06_Spec Proofs.C06_Flaky Proofs.C06_Overlap.
 
 (* ------------------------------------------------------------------------------------------ *)
 (* The property, for every request of every kind, every chain, every batch.                     *)
@@ -490,6 +490,61 @@ Qed.
 Print Assumptions C06_session_partial_failure_spec.
 
 (* ------------------------------------------------------------------------------------------ *)
+(* Overlapping requests: requests enter and leave the ONE service instance in any interleaving    *)
+(* ([run_overlapped], events [EStart k] / [EFinish k]; an account call of one request may wait    *)
+(* while any number of other requests are made and answered).                                     *)
+
+(* Whatever the interleaving -- nested, first-in-first-out, requests repeated, events of requests
+   that do not exist --: an outcome reported for the k-th request is the outcome of that request
+   made alone to a service fresh from New, with the node and the signers as they answered for it. *)
+Theorem C06_overlapped_request_alone :
+  forall (H : N -> N -> N) (sig : Type) (zero_sig : sig) (Sv : service)
+         (qs : list (provider * env sig * request)) (evs : list event) (k : nat) (out : res (list sig)),
+    In (k, out) (run_overlapped H sig zero_sig Sv qs [] evs) ->
+    exists P E q, nth_error qs k = Some (P, E, q) /\ out = run H sig zero_sig P E Sv q.
+Proof.
+  intros H sig zero_sig Sv qs evs k out Hin.
+  exact (run_overlapped_alone H sig zero_sig Sv qs evs [] (Forall_nil _) k out Hin).
+Qed.
+Print Assumptions C06_overlapped_request_alone.
+
+(* ... and a request that is started and later finished is answered, whatever happens in between
+   and around it. *)
+Theorem C06_overlapped_request_answered :
+  forall (H : N -> N -> N) (sig : Type) (zero_sig : sig) (Sv : service)
+         (qs : list (provider * env sig * request)) (k : nat) (P : provider) (E : env sig) (q : request)
+         (before between after : list event),
+    nth_error qs k = Some (P, E, q) ->
+    ~ In (EFinish k) between ->
+    exists outs1 outs2,
+      run_overlapped H sig zero_sig Sv qs [] (before ++ EStart k :: between ++ EFinish k :: after)
+      = outs1 ++ outs2 /\ In (k, run H sig zero_sig P E Sv q) outs2.
+Proof. exact run_overlapped_answered. Qed.
+Print Assumptions C06_overlapped_request_answered.
+
+(* The property for overlapping requests: every answered request of every interleaving -- the other
+   requests arbitrary, the node and the signers answering them in any way -- carries, position by
+   position, zero signatures (for accounts the signer had no signature for) or the signatures of ITS
+   accounts over the specification's signing roots of ITS messages. *)
+Theorem C06_overlapped_spec :
+  forall (H : N -> N -> N) (sig : Type) (zero_sig : sig) (sign : N -> N -> sig) (bf be sf : account -> bool) (c : chain)
+         (qs : list (provider * env sig * request)) (evs : list event) (k : nat) (q : request) (sigs : list sig),
+    nth_error qs k = Some (spec_provider H c, honest_flaky H sig sign bf be sf, q) ->
+    req_wf c q ->
+    In (k, Ok sigs) (run_overlapped H sig zero_sig (spec_service c) qs [] evs) ->
+    length sigs = length (request_items q) /\
+    forall i a m s, nth_error (request_items q) i = Some (a, m) -> nth_error sigs i = Some s ->
+      s = zero_sig \/ s = sign (a_key a) (spec_signing_root H c m).
+Proof.
+  intros H sig zero_sig sign bf be sf c qs evs k q sigs Hk Hwf Hin.
+  destruct (run_overlapped_alone H sig zero_sig (spec_service c) qs evs [] (Forall_nil _) k (Ok sigs) Hin)
+    as (P & E & q' & Hk' & Hrun).
+  rewrite Hk in Hk'. injection Hk' as <- <- <-.
+  exact (run_flaky_spec H sig zero_sig sign bf be sf c q sigs Hwf (eq_sym Hrun)).
+Qed.
+Print Assumptions C06_overlapped_spec.
+
+(* ------------------------------------------------------------------------------------------ *)
 (* Non-vacuity: a concrete chain with a fork, a toy hash, and requests that succeed.            *)
 
 Definition toy_H (a b : N) : N := (a * 31 + b * 17 + 7) mod 2 ^ 256.
@@ -574,3 +629,20 @@ Example C06_partial_failure_example :
   = [Ok [(1, root 7); (2, root 8); (3, root 9); (0, 0); (5, root 11)];
      Ok [(1, root 7); (2, root 8); (3, root 9); (4, root 10); (5, root 11)]].
 Proof. vm_compute. repeat split; reflexivity. Qed.
+
+(* overlapping requests: two aggregate-and-proof signatures for the same slot by two wallet
+   accounts, the second requested and answered while the first account is still signing, and a
+   RANDAO reveal nested in between: each is over its own root *)
+Example C06_overlapped_example :
+  let P := spec_provider toy_H toy_chain in
+  let E := honest toy_H (N * N) toy_sign in
+  let q0 := ReqAggregateAndProof (wallet_acc 1) 85 170 in
+  let q1 := ReqAggregateAndProof (wallet_acc 2) 85 187 in
+  let q2 := ReqRandao (wallet_acc 3) 88 in
+  let root m := spec_signing_root toy_H toy_chain m in
+  run_overlapped toy_H (N * N) (0, 0) (spec_service toy_chain) [(P, E, q0); (P, E, q1); (P, E, q2)] []
+    [EStart 0; EStart 1; EStart 2; EFinish 2; EFinish 1; EFinish 0]
+  = [(2%nat, Ok [(3, root (MRandao 88))]);
+     (1%nat, Ok [(2, root (MAggregateAndProof 85 187))]);
+     (0%nat, Ok [(1, root (MAggregateAndProof 85 170))])].
+Proof. vm_compute. reflexivity. Qed.
